@@ -127,6 +127,12 @@ def main():
               "  lock-free busy flag: needs two pre-emptions) was caught by the site-targeted schedule as it was; C16-r7B (a",
               "  digest table keyed by length + first/last 32 bytes of large identities) -> families of look-alike large",
               "  identities (same length, head and tail, different middle) in C16 and C02.",
+              "* round 8 (`*-r8A/B`): C08-r8A (the restored instance keeps the caller's blob object; wrong once a mutable",
+              "  buffer is scrubbed) and C10-r8A (from_serialized refusing `bytearray` rows) -> stored rows are sometimes",
+              "  handed over in a `bytearray` that the application wipes afterwards; C05-r8A (a module flag cleared by the",
+              "  library's lenient public decoder and not restored when it raises) -> C05 calls that helper on arbitrary",
+              "  strings before strict decoding; C10-r8B (no whitespace allowed outside the JSON object) was caught as",
+              "  it was (the reference encoder already writes outer whitespace). The C02 agent ended without output.",
               "* round-3 change C07-r3A (`_started` set only when start() succeeds, so a start() after a start() whose",
               "  entropy function raised returns the one and only message) was **not kept**: the statement bounds the",
               "  number of messages returned (at most one) and fixes the error only for calls after a message was",
